@@ -159,7 +159,7 @@ def run_incr(arg, tier, res, only=None):
             reason_box["r"] = None
         return reason_box["r"]
     schema = incr.make_schema()
-    doc = parse(text)
+    doc = incr.gparse(text)
     variables = (varsets or [None])[0]
     faults = [None] if stop != "none" else incr.FAULTS
     cap = 40000 if tier == "quick" else 600000
@@ -211,7 +211,7 @@ def scenario_sub(c, idx, stop):
 
     kind, text, n, async_res = SUB_SCENARIOS[idx]
     schema = build_schema(c07.SCHEMA)
-    doc = parse(text)
+    doc = incr.gparse(text)
     trace = []
     closes = []
     out = []
